@@ -22,4 +22,5 @@ def run(ctx, rep):
     rep.run(RM.rule_file_separator, ctx, rep, "Y1")
     rep.run(RC.rule_submodule_contract, ctx, rep, "Y2")
     rep.run(RC.rule_option_plumbing, ctx, rep, "Y3")
+    rep.run(RC.rule_source_list_unfiltered, ctx, rep, "Y3")
     rep.run(RC.rule_sibling_scripts, ctx, rep, "Y4")
